@@ -41,6 +41,15 @@ CHECKS = {
    "Crash enumeration over the real TakeSnapshot on the journalling in-memory file system: datasets x 0..2 earlier snapshots x {new writes, nothing new}; every journal prefix inside the crashed snapshot, every byte-prefix of each of its writes, thorough also dropped unsynced writes; a fresh server with snapshot restore must yield exactly what it yields from a COMPLETED snapshot (previous or new) incl. LASTSAVE; a failed/no-op attempt must leave files and LASTSAVE untouched; the completed snapshot must restore the key set of its instant (guards the differential reference against vacuity).",
    "Persistence model as C02; two snapshots never share a millisecond.",
    "exhaustive crash-point / torn-write enumeration of real file-operation journals", "DESIGN.md 6 C10"),
+
+ "C08": ("model_checking",
+   "Explicit-state BFS over the real dispatcher with the asynchronous cache-update/eviction goroutines brought to quiescence after every action, under a virtual clock stepping 1 ms per command: 7 policies x limits (the implementation's own usage after 2 / 3 reference keys) x all histories of depth 3 (thorough 4) over SET (two sizes, with/without deadline), GET, MGET, TOUCH, DEL, FLUSHDB; reference = access history replayed from the path + the policy rules of the property (noeviction admission, eviction only at/above the limit, candidates, LRU/LFU order, no superfluous victim, victim gone from store/volatile index/heaps, survivors unchanged, no panic/hang/leaked goroutine). Plus a scheduler facet: all interleavings of two concurrent writers one key below the limit under noeviction, judged against serial outcomes incl. the memory figure.",
+   "GET/SET/TOUCH count as accesses; judged against the server's reported memory figure; order rules only on histories without an earlier eviction.",
+   "explicit-state BFS over the real step function + preemption-bounded schedule exploration", "DESIGN.md 6 C08"),
+ "C18": ("model_checking",
+   "(a) Explicit-state BFS over the real dispatcher with three recorded connections and the embedded publisher (SUBSCRIBE/PSUBSCRIBE/UNSUBSCRIBE/PUNSUBSCRIBE incl. duplicates and unknown names, PUBLISH, PUBSUB CHANNELS/NUMSUB/NUMPAT), depth 4/5, per-transition conformance to a reference subscription table: exactly one frame per publish for every connection whose subscriptions match, none for the others, confirmations once per channel with the running count, introspection = table. (b) Stateless preemption-bounded DFS over the schedules of publisher/subscriber threads versus the per-channel and per-message delivery goroutines (their start is a scheduling point of its own): frames per connection must be those of a serial execution, in publish order.",
+   "A connection subscribed by name and by a matching pattern must receive one frame (statement); PUNSUBSCRIBE also removes name subscriptions matching the pattern (documented); frame layout beyond 'last element is the message' not compared.",
+   "explicit-state BFS + stateless schedule exploration under a cooperative scheduler", "DESIGN.md 6 C18"),
 }
 NOT_YET = "check not built yet (work in progress; see DESIGN.md section 9 for build order)"
 m={"version":1,
